@@ -602,7 +602,7 @@ def execute(tpl, dev, role=None, banner=None, probe_cfg=None):
         p.close()
         s.quiesce()
 
-    ex, hung = CF.run(body, horizon=45.0, step_budget=30_000, wd=10.0)
+    ex, hung = CF.run(body, horizon=45.0, step_budget=30_000, wd=6.0)
     out["outcome"] = ex.outcome
     out["error"] = repr(ex.error) if ex.error is not None else None
     out["hung"] = hung
@@ -760,7 +760,8 @@ def run_items(item, acc):
         for key, detail in vs:
             add_violation(acc, key, {"case": case, "detail": detail,
                                      "edited": x.fired[1][:48] if fired else None}, {"case": case})
-        if not vs and fired and len(acc.samples) < 3 and o["excs"] and case[0] == "msg" and case[2][0] == "field":
+        if not vs and fired and len(acc.samples) < 3 and case[0] == "msg" and case[2][0] in ("field", "nested") \
+                and any(a.startswith("api:") and isinstance(e, SSHException) for a, e in o["excs"]):
             acc.sample({"victim": role, "template": case[1], "deviation": case[2],
                         "honest": x.fired[0][:40], "edited": x.fired[1][:40],
                         "surfaced": [(a, CF.exc_brief(e)) for a, e in o["excs"]][:3]})
@@ -776,7 +777,7 @@ def main(tier):
                      "default algorithms except the kex family under test; ed25519 host key",
                      "victim timeouts shortened (auth/channel 5 s, handshake 8 s virtual); a victim API still blocked "
                      "after 45 virtual seconds is recorded as a hang, not judged (C13)",
-                     "a thread spinning for 10 CPU-seconds without a scheduling point is interrupted and reported "
+                     "a thread spinning for 6 CPU-seconds without a scheduling point is interrupted and reported "
                      "as HangDetected at its site"])
     tpls = templates()
     ncfg = probe_templates(tpls)
